@@ -205,3 +205,29 @@ func H_C14_Count() {
 }
 
 var _ = timestamppb.New
+
+// H_C14_Lists: set-valued attributes with two elements on the first node and one of them on the second (a removed
+// element behind a kept one and the other way round): the report is the same when asked twice, and rebuilding the
+// second node from the first one as it is after the call gives the second node.
+func H_C14_Lists() {
+	fields := []int{fLicenses, fAttribution, fFileTypes}
+	f := fields[rt.NondetChoice("field", len(fields))]
+	x, y := rt.NondetString("x"), rt.NondetString("y")
+	rt.Assume(rt.And(rt.StrPlain(x), rt.StrPlain(y), x != y))
+	n1, n2 := sentinelNode("n", "a"), sentinelNode("n", "a")
+	*strsField(n1, f) = withSpare([]string{x, y}, "l")
+	if rt.NondetChoice("keep", 2) == 0 {
+		*strsField(n2, f) = []string{x}
+	} else {
+		*strsField(n2, f) = []string{y}
+	}
+	c2 := cloneNode(n2)
+	d := n1.Diff(n2)
+	if d == nil || d.Added == nil || d.Removed == nil {
+		rt.Assert(false, "C14.lists.reported")
+		return
+	}
+	rt.Assert(rebuiltMatches(n1, c2, d, f), "C14.lists.rebuild."+nodeFieldNames[f])
+	d2 := n1.Diff(n2)
+	rt.Assert(d2 != nil && d2.DiffCount == d.DiffCount && rt.StrSetEq(*strsField(d2.Removed, f), *strsField(d.Removed, f)), "C14.lists.again."+nodeFieldNames[f])
+}
